@@ -267,7 +267,7 @@ class Expander:
                 if pos_ < 0:
                     raise ExtractError("%s::%s: text anchor `%s` not found" % (rel, name, needle))
                 start_ = pos_ + 1
-            ins.append((pos_ + len(needle), " " + " ".join(txt) + " "))
+            ins.append((pos_ + len(needle), " " + "\n".join(txt) + "\n"))
         for (prefix, k2) in drops:
             try:
                 a, b2 = S.find_stmt(bo, end, prefix, k2)
